@@ -202,9 +202,24 @@ async def async_connect(transport):
 class AsyncTCPMySensorsProtocol(BaseMySensorsProtocol, asyncio.Protocol):
     """Async TCP protocol class."""
 
+    def __init__(self, *args, **kwargs):
+        """Set up async TCP protocol."""
+        super().__init__(*args, **kwargs)
+        self._eof_received = False
+
+    def eof_received(self):
+        """Handle that the other end closed the connection."""
+        # The transport will close itself and call connection_lost without error.
+        self._eof_received = True
+
     def connection_lost(self, exc):
         """Handle lost connection."""
         _LOGGER.debug("Connection lost with %s", self.transport)
+        if self._eof_received:
+            self._eof_received = False
+            if exc is None:
+                # We did not ask for this, report an error to get a new connection.
+                exc = ConnectionResetError("Connection closed by the other end")
         if self.gateway.cancel_check_conn:
             self.gateway.cancel_check_conn()
             self.gateway.cancel_check_conn = None
